@@ -223,8 +223,16 @@ Tree0Segs(j) ==
     [] j % 4 = 2 -> <<"verif", "o" \o ToString(j - 2)>>
     [] OTHER     -> <<"verif", "o" \o ToString(j - 3), "sub", "n" \o ToString(j)>>
 Reg(segs, k) == [path |-> PathStr(segs), segs |-> segs, iface |-> k]
+(* Tree 1 is a *large* tree: each of the first (up to) 16 interfaces without comment-breaking docs    *)
+(* is registered at 8 paths below /big, which makes the documents of / and /big several thousand       *)
+(* elements long (zbus nests all descendants).                                                        *)
+BigRegs(n) ==
+  LET ks == SelectSeq([j \in 1..(IF n < 16 THEN n ELSE 16) |-> j - 1], LAMBDA k : k % 4 # 1) IN
+  [i \in 1..(Len(ks) * 8) |->
+     Reg(<<"big", "b" \o ToString(ks[((i - 1) \div 8) + 1]) \o "x" \o ToString((i - 1) % 8)>>, ks[((i - 1) \div 8) + 1])]
 TreeRegs(t, n) ==
   IF t = 0 THEN [j \in 1..n |-> Reg(Tree0Segs(j - 1), j - 1)]
+  ELSE IF t = 1 THEN BigRegs(n)
   ELSE LET chosen == SelectSeq([j \in 1..n |-> j - 1], LAMBDA k : (k + t) % 3 # 0 /\ (k * 5 + t) % 7 < 4 /\ (k % 4 # 1 \/ t % 4 = 0)) IN
        [i \in 1..Len(chosen) |-> Reg(Pick(PathPool, chosen[i] * t + chosen[i] + t), chosen[i])]
 
